@@ -71,7 +71,10 @@ def write_chain(chain: MHLChain, new_hash_list: MHLHashList):
     if not os.path.isdir(directory_path):
         os.mkdir(directory_path)
 
-    file = open(chain.file_path, "wb")
+    # write to a temporary file and replace the existing chain file once the new one is complete,
+    # so an interrupted run never truncates or corrupts the chain of the already existing generations
+    temp_file_path = chain.file_path + ".tmp"
+    file = open(temp_file_path, "wb")
     file.write(b'<?xml version="1.0" encoding="UTF-8"?>\n<ascmhldirectory xmlns="urn:ASC:MHL:DIRECTORY:v2.0">\n')
     current_indent = "  "
 
@@ -85,6 +88,7 @@ def write_chain(chain: MHLChain, new_hash_list: MHLHashList):
     _write_xml_string_to_file(file, "</ascmhldirectory>\n", current_indent)
     file.flush()
     file.close()
+    os.replace(temp_file_path, chain.file_path)
 
 
 def _write_xml_element_to_file(file, xml_element, indent: str):
